@@ -66,6 +66,26 @@ class Driver:
                    for src in NUM_ABBR}
         self.methods = {c: [m for m in ALL_DST if m in getattr(A, c).__dict__] for c in ax.ANGLE_CLASSES}
 
+    HOSTILE = [('hp2dec', 12.6), ('hp2dec', 12.0075), ('hp2dec', -0.61), ('hp2dms', 1.99), ('hp2ddm', 5.6), ('hp2gon', 7.0061),
+               ('hp2rad', 3.7), ('hp2dec_v', [1.3, 1.7, 2.1]), ('hp2dec', 'x'), ('hp2dec', None), ('dec2hp', 'x'), ('dec2hp', float('nan')),
+               ('dec2hp', float('inf')), ('dec2dms', float('nan')), ('dec2ddm', 'x'), ('dec2hp_v', ['a']), ('gon2hp', float('inf')),
+               ('HPAngle', 1.61), ('HPAngle', 10.0099), ('DMSAngle', 'a b c'), ('DDMAngle', 'q'), ('dec2hpa', float('nan')),
+               ('gon2dms', None), ('dd2sec', 'x'), ('hp2hpa', 0.6)]
+
+    def hostile(self):
+        """calls with values the property does not speak about (rejected numerals, NaN, strings), monitors switched off:
+        not judged; the judged conversions made afterwards must be as right as ever"""
+        self.mon.active = False
+        try:
+            k = self.n // 97
+            for j in range(3):
+                name, arg = self.HOSTILE[(k * 3 + j) % len(self.HOSTILE)]
+                f = getattr(self.A, name, None)
+                if f is not None:
+                    core.unjudged(self.ctx, f, arg)
+        finally:
+            self.mon.active = True
+
     def call(self, f, x):
         try:
             return f(x)
@@ -91,6 +111,9 @@ class Driver:
     def drive(self, sign, D, M, S, vclass, hop2=True):
         """S: Fraction seconds.  Drives every callable with the value in every source notation."""
         A, ctx = self.A, self.ctx
+        self.n = getattr(self, 'n', 0) + 1
+        if self.n % 97 == 0:
+            self.hostile()
         deg = sign * (Fraction(D) + Fraction(M, 60) + Fraction(S) / 3600)
         dec = float(deg)
         hp_txt, hp = ax.hp_make(deg, 9)
